@@ -652,6 +652,14 @@ func checkWriter(c *Check, p *Prog) {
 	}
 	if len(dones) != 1 || !S.Equivalent(dones[0].Guard, bodyG) {
 		probs = append(probs, fmt.Sprintf("wg.Done is not called exactly once per row (%d sites)", len(dones)))
+	} else {
+		// ... and only when the row is completely written (main closes the report after wg.Wait)
+		for _, w := range writes {
+			if dones[0].Seq < w.e.Seq {
+				probs = append(probs, "wg.Done is called before the row is completely written: main's Wait can return, and the report be closed, while the row is still going out")
+				break
+			}
+		}
 	}
 	probs = append(probs, other...)
 	c.Expect(len(probs) == 0, "R-WRITER", "resultWriter", where,
